@@ -62,9 +62,11 @@ def gen():
             cand = [n for n in pool if n not in names and (n.startswith("v") or sz == 1)]
             names.append(draw(st.sampled_from(cand)))
         order = draw(st.permutations(list(range(len(names)))))
-        return {"kind": draw(st.sampled_from(["gauss", "poisson", "logistic", "quartic"])), "D": D, "sizes": sizes, "names": names, "order": list(order),
+        return {"kind": draw(st.sampled_from(["gauss", "gauss_wide", "poisson", "logistic", "quartic"])), "D": D, "sizes": sizes, "names": names, "order": list(order),
                 "kernel": draw(st.sampled_from(["rw", "iwls", "iwls", "iwls_user", "mh"])), "step": draw(st.sampled_from([0.01, 0.05, 0.2, 0.5, 1.0, 2.0] if D <= 5 else [0.01, 0.01, 0.05, 0.2])),    # (large blocks need small steps to move at all)
-                "point": draw(st.sampled_from(["bulk", "bulk", "tail"])), "seed": draw(st.integers(0, 10**6)), "key_seed": draw(st.integers(0, 2**30))}
+                "point": draw(st.sampled_from(["bulk", "bulk", "tail"])),
+                # the step size in force is the one in the kernel state (as after adaptation); the constructor's initial value may differ from it
+                "init_step": draw(st.sampled_from([None, 0.37, 1.3])), "seed": draw(st.integers(0, 10**6)), "key_seed": draw(st.integers(0, 2**30))}
 
     return g()
 
@@ -101,14 +103,14 @@ def build(c):
     iface = tg.make_interface(t, layout)
     k = c["kernel"]
     if k == "rw":
-        ker = gs.RWKernel(listing, initial_step_size=c["step"])
+        ker = gs.RWKernel(listing, initial_step_size=c.get("init_step") or c["step"])
     elif k == "iwls":
-        ker = gs.IWLSKernel(listing, initial_step_size=c["step"])
+        ker = gs.IWLSKernel(listing, initial_step_size=c.get("init_step") or c["step"])
     elif k == "iwls_user":
         def chol_info(state):
             return jnp.linalg.cholesky(t.user_info_jnp(tg.flat_of(state, layout)))
 
-        ker = gs.IWLSKernel(listing, chol_info_fn=chol_info, initial_step_size=c["step"])
+        ker = gs.IWLSKernel(listing, chol_info_fn=chol_info, initial_step_size=c.get("init_step") or c["step"])
     else:
         def proposal(key, state, step):
             x = tg.flat_of(state, layout)
@@ -119,7 +121,7 @@ def build(c):
             pos = {kk: jnp.reshape(new[sl], shp) for kk, (sl, shp) in layout.items()}
             return gs.MHProposal(pos, bwd - fwd)
 
-        ker = gs.MHKernel(listing, proposal, initial_step_size=c["step"])
+        ker = gs.MHKernel(listing, proposal, initial_step_size=c.get("init_step") or c["step"])
     ker.set_model(iface)
     return t, layout, iface, ker
 
@@ -146,7 +148,7 @@ def oracle(c):
     selfcheck_derivatives(t)
     rng = np.random.default_rng([c["seed"], 66])
     # current point
-    mode = np.linalg.solve(t.P, t.P @ t.m) if c["kind"] == "gauss" else np.zeros(c["D"])
+    mode = np.linalg.solve(t.P, t.P @ t.m) if c["kind"] in ("gauss", "gauss_wide") else np.zeros(c["D"])
     Hm = t.neg_hess(mode)
     sd = 1.0 / np.sqrt(np.diag(Hm))
     x = mode + sd * rng.normal(size=c["D"]) * (1.0 if c["point"] == "bulk" else 2.5)
